@@ -86,7 +86,7 @@ TrPickle ==
     /\ Clause("C11.pickle." \o e.what \o ".outcome", e.out = "ok")
     /\ Clause("C11.pickle." \o e.what \o ".equal", e.out # "ok" \/ e.eq)
     /\ Clause("C11.pickle." \o e.what \o ".obs", e.out # "ok" \/ e.obs = e.fresh)
-    /\ Clause("C11.pickle." \o e.what \o ".cached", e.out # "ok" \/ e.what # "ctx" \/ ~ e.cached)
+    /\ Clause("C11.pickle." \o e.what \o ".cached", e.out # "ok" \/ e.what \notin {"ctx", "own"} \/ ~ e.cached)
     /\ UNCHANGED cx
 
 TrCrash == IsEv("crash") /\ Clause(e.prop \o ".raises." \o e.exc, FALSE) /\ UNCHANGED cx
